@@ -33,6 +33,20 @@ def pool(ctx, n):
         [{"o": "PROTO", "a": 2}, {"o": "PROTO", "a": 2}, K(1), O("STOP")],
         [G("collections", "OrderedDict"), O("EMPTY_TUPLE"), O("NEWOBJ"), O("EMPTY_DICT"), O("BUILD"), O("STOP")],
     ]
+    # the same shapes at scale (many findings of one kind: anything that ranks, caps or batches results meets its threshold)
+    many_unused = [{"o": "PROTO", "a": 2}]
+    for _ in range(14):
+        many_unused += [G("collections", "OrderedDict"), O("EMPTY_TUPLE"), O("REDUCE"), O("POP")]
+    many_unused += [K(None), O("STOP")]
+    many_imports = []
+    for k in range(13):
+        many_imports += [G("verif_sink", f"name{k}"), O("POP")]
+    many_imports += [K(1), O("STOP")]
+    many_calls = []
+    for k in range(12):
+        many_calls += [G("verif_sink", "hit"), K(k), O("TUPLE1"), O("REDUCE")]
+    many_calls += [O("STOP")]
+    hand += [many_unused, many_imports, many_calls]
     out = [assemble(h) for h in hand]
     vals = [[decimal.Decimal("1.5"), decimal.Decimal("1.5")], [fractions.Fraction(1, 2)] * 3,
             {"a": {1, 2, 3}, "b": frozenset("xyz")}, {"k%d" % i: i for i in range(12)},
